@@ -77,7 +77,17 @@ static void prepare_categories()
 
       if (!cat_pattern.empty())
       {
-         include_categories[i] = new include_category(cat_pattern);
+         try
+         {
+            include_categories[i] = new include_category(cat_pattern);
+         }
+         catch (const std::regex_error &e)
+         {
+            fprintf(stderr, "include_category_%d: '%s' is not a valid regular expression: %s\n",
+                    i, cat_pattern.c_str(), e.what());
+            log_flush(true);
+            exit(EX_CONFIG);
+         }
       }
       else
       {
